@@ -5,5 +5,16 @@ ENGINES = [
      "kind_free_text": "enumerating numpy Generator stand-in driving the real samplers: bounded stand-in and replay oracle (never counted as proved)"},
 ]
 NOTES = "Work in progress: properties move from not_applicable to checks as their contracts come online."
-CHECKS = {}
-NOT_APPLICABLE = {("C%02d" % i): "check not built yet (in progress; see DESIGN.md section 5)" for i in range(1, 21)}
+PROOF_NOTE = ("Trusted base: the library/collaborator models listed in coverage.trusted_base (assumed contracts on numpy Generator, Tree methods at Layer 2, "
+              "meta-theorems), A-REAL (floats as reals), the pyvc engine itself (cross-checked against CPython and by seeded source mutations in the thorough tier). "
+              "Bounded stand-ins are labelled bounded and never counted in 'discharged'.")
+
+CHECKS = {
+    "C01": {"category": "proof", "technique": "contract-based deductive verification (pyvc: AST symbolic execution of the real source + z3) of the local particle-Gibbs conditions L1,L3-L8; exact-kernel oracle as bounded stand-in",
+            "text": "Every obligation generated from the current source of create_particle (+real Particle/TreeHolder), _get_log_w, ParticleSwarm, ConditionalSMCSampler._init/_update/_resample_swarm, AbstractSMCSampler.sample, ParticleGibbsTreeSampler.sample_swarm/_sample_tree_from_swarm, run.setup_kernel/setup_samplers and the three proposals' sample/log_p is discharged by z3 for all N, T, thresholds and parent states; the step from these local conditions to invariance is the trusted theorem M-PG, cross-checked by exact transition matrices on n<=3 points (bounded).",
+            "note": PROOF_NOTE},
+    "C08": {"category": "proof", "technique": "contract-based deductive verification: relational obligation log rho(sample path) == log_p(result) on the real proposal code with a ghost density accumulator; z3",
+            "text": "Faithful sampling of the three proposals (for every parent state, any number of top-level clones, any outlier proposal probability), the incremental weight formula with and without a permutation distribution, the final-step correction and log_normalize are proved on the real source; completeness of the candidate sets of the adapted proposals and the class invariant established by _init_dist are covered by exact enumeration on small parents (bounded).",
+            "note": PROOF_NOTE},
+}
+NOT_APPLICABLE = {("C%02d" % i): "check not built yet (in progress; see DESIGN.md section 5)" for i in range(1, 21) if ("C%02d" % i) not in CHECKS}
